@@ -4,9 +4,11 @@
   correspondence run), `Re.runSpec` the frame-stack reference semantics that never mentions the
   in-progress set.
 -/
+import IcontractModel.Spec.Bare
 import IcontractModel.Spec.Frames
 import IcontractModel.Lemmas.ReentrySim
 import IcontractModel.Lemmas.ReentryTerm
+import IcontractModel.Lemmas.ReentryTermGen
 import IcontractModel.Lemmas.ReentryUpstream
 namespace Icontract.Re
 
@@ -73,5 +75,75 @@ theorem C10_state_restored_after_reentrant_call (p : Program) (fuel : Nat) (tr :
     have hk := h k
     rw [List.contains_cons] at hk
     simp at hk
+
+/-- **Termination, in general: contracts add no divergence.**  If the program stripped of its contracts finishes every
+action within some recursion depth (from every state), then the contracted program - with preconditions, postconditions
+and invariants that call contracted functions, public methods and constructors, directly or mutually, any number of
+times - finishes every action within a recursion depth that depends on the program only. -/
+theorem C10_contracts_add_no_divergence (p : Program)
+    (hbare : ∃ n, ∀ (st : St) (a : Action), (run p.bare .repaired n st (.act a)).2 ≠ .timeout) :
+    ∃ N, ∀ fuel, N ≤ fuel → ∀ (st : St) (a : Action), (run p .repaired fuel st (.act a)).2 ≠ .timeout := by
+  exact contracts_add_no_divergence p hbare
+
+/-- a class whose invariant calls a public method of the same instance (and a contracted function), a function
+whose precondition calls the function itself and whose body calls another function, whose postcondition in turn
+calls a method and a constructor -/
+def mixed : Program :=
+  { fns := [ { pre := [{ actions := [.callFn 0] }], body := { actions := [.callFn 1] } },
+             { post := [{ actions := [.callMethod 0 0, .construct 0] }] } ],
+    classes := [ { invs := [{ actions := [.callMethod 0 0, .callFn 0] }],
+                   meths := [{ body := { actions := [.callFn 1] } }] } ],
+    instCls := [0] }
+
+/-- every chain of bodies calling actions in `mixed` is shorter than 3 -/
+theorem mixed_rk : ∀ a, mixed.rk 3 a := by
+  have hfn1 : ∀ r, mixed.rk (r + 1) (.callFn 1) := fun r b hb => nomatch hb
+  have hsup : ∀ i cid r, mixed.rk (r + 1) (.superInit i cid) := by
+    intro i cid r b hb
+    match cid, hb with
+    | 0, hb => exact nomatch hb
+    | _ + 1, hb => exact nomatch hb
+  intro a
+  match a with
+  | .callFn 0 =>
+    intro b hb
+    have e : b = .callFn 1 := List.mem_singleton.mp hb
+    subst e; exact hfn1 1
+  | .callFn 1 => exact hfn1 2
+  | .callFn (_ + 2) => exact fun b hb => nomatch hb
+  | .callMethod 0 0 | .callMethod (_ + 1) 0 =>
+    intro b hb
+    have e : b = .callFn 1 := List.mem_singleton.mp hb
+    subst e; exact hfn1 1
+  | .callMethod 0 (_ + 1) | .callMethod (_ + 1) (_ + 1) => exact fun b hb => nomatch hb
+  | .construct i =>
+    intro b hb
+    have e : b = .superInit i (mixed.clsOf i) := List.mem_singleton.mp hb
+    subst e; exact hsup _ _ 1
+  | .superInit i cid => exact hsup i cid 2
+
+/-- the hypothesis of `C10_contracts_add_no_divergence` is satisfiable by a program whose contracts re-enter
+(functions, methods and constructors), and the conclusion then holds for it -/
+example :
+    (∃ n, ∀ (st : St) (a : Action), (run mixed.bare .repaired n st (.act a)).2 ≠ .timeout) ∧
+    ∃ N, ∀ fuel, N ≤ fuel → ∀ (st : St) (a : Action), (run mixed .repaired fuel st (.act a)).2 ≠ .timeout :=
+  ⟨bare_of_rk mixed_rk, C10_contracts_add_no_divergence mixed (bare_of_rk mixed_rk)⟩
+
+/-- ... concretely: the precondition of function 0 re-enters it (bare), its body calls function 1, whose
+postcondition calls the method (invariant: the method again - bare - and function 0 - bare) and the constructor -/
+example :
+    (run mixed .repaired 40 {} (.act (.callFn 0))).2 = .ok ∧
+    (run mixed .repaired 40 {} (.act (.callMethod 0 0))).2 = .ok ∧
+    (run mixed .repaired 40 {} (.act (.construct 0))).2 = .ok ∧
+    (run mixed.bare .repaired 40 {} (.act (.callFn 0))).2 = .ok := by
+  decide
+
+/-- invariants that call public methods of the same object (and of other objects), constructors included: with bodies
+that make no calls there is nothing to assume -/
+theorem C10_invariants_terminate (p : Program)
+    (hb : ∀ d ∈ p.fns, d.body.actions = [])
+    (hm : ∀ c ∈ p.classes, c.init.actions = [] ∧ ∀ m ∈ c.meths, m.body.actions = []) :
+    ∃ N, ∀ fuel, N ≤ fuel → ∀ (st : St) (a : Action), (run p .repaired fuel st (.act a)).2 ≠ .timeout := by
+  exact C10_contracts_add_no_divergence p (bare_of_rk (rk_two_of_no_calls hb hm))
 
 end Icontract.Re
